@@ -20,8 +20,8 @@ ASSUMPTIONS = ['independent derivation of every attribute from the keywords in p
                'well-formed number = plain decimal; blank = a single space (TEXT cannot hold an empty value); '
                'yy-mmm-dd dates use yy>31 (otherwise ambiguous with dd-mmm-yy)']
 BUDGET = {
-    'quick': dict(examples=4000, time_s=300),
-    'thorough': dict(examples=200000, time_s=2400),
+    'quick': dict(examples=4000, time_s=300, fuzz=dict(workers=4, runs=800, max_s=60)),
+    'thorough': dict(examples=200000, time_s=2400, fuzz=dict(workers=8, runs=6000, max_s=300)),
 }
 
 MON = ['Jan', 'Feb', 'Mar', 'Apr', 'May', 'Jun', 'Jul', 'Aug', 'Sep', 'Oct', 'Nov', 'Dec']
